@@ -245,6 +245,11 @@ def _shortcut_by_scenario(prog, rep, sc, ds):
                     for sl in slot_kinds:
                         if src(c.args[0]).startswith(f"{subj}.{sl}"):
                             state["events"].append(("push", sl))
+                elif isinstance(c, ast.Call) and (dotted(c.func) or "") not in ("isinstance", "len", "id", "type", "hasattr"):
+                    for a_ in list(c.args) + [k_.value for k_ in c.keywords]:
+                        t_ = src(a_)
+                        if any(t_ == f"{subj}.{sl}" for sl in slot_kinds) or state["alias"].get(t_) is not None:
+                            state["events"].append(("handed", src(c.func)))
 
         out = []
         for fs_none in (True, False):
@@ -313,6 +318,15 @@ def _shortcut_by_scenario(prog, rep, sc, ds):
                     rep.ob("R16.3", construct, not bad, f"{desc}: the shortcut gives up (or opens the container)" if not bad else f"{desc}: the node is accepted" + (" without requiring both operands to be the same VectorVariable object" if len(vec) == 2 else " although the operand is a VectorExpression whose variables are not looked at"), loc=loc, detail=det + ":" + desc[:40])
                     continue
                 why = None
+                handed = sorted({x for _f, _d, st_, _t in paths for e, x in st_["events"] if e == "handed"})
+                for c_ in ast.walk(loop):
+                    # also inside tests: `if not tracker.admit(current.vector):`
+                    if isinstance(c_, ast.Call) and (dotted(c_.func) or "") not in ("isinstance", "len", "id", "type", "hasattr") and not (isinstance(c_.func, ast.Attribute) and c_.func.attr in ("append", "extend")):
+                        if any(src(a_) in {f"{subj}.{sl}" for sl in slots} for a_ in list(c_.args) + [k_.value for k_ in c_.keywords]):
+                            handed.append(src(c_.func))
+                if handed:
+                    rep.undecided(f"{construct} ({desc}): the operand is handed to `{handed[0]}(..)`; how the source is recorded and compared there is not followed")
+                    continue
                 for fs, df, st_, term in paths:
                     ev = st_["events"]
                     rec = [x for e, x in ev if e in ("candidate", "set")]
